@@ -69,7 +69,7 @@ def _corpus(chk):
 def run(chk):
     chk.build_js(); chk.build_rust()
     quick = chk.tier == "quick"
-    passes = [_corpus] + ([_pass(chk.seed * 100 + 11, 1500, "schema(random)"), _pass_prog(chk.seed * 100 + 12, 600, "compiled-schema(random)")] if quick else
+    passes = [_corpus] + ([_pass(chk.seed * 100 + 11, 3000, "schema(random)"), _pass_prog(chk.seed * 100 + 12, 1200, "compiled-schema(random)")] if quick else
                           [_pass_prog(chk.seed * 100 + 20 + k, 6000, f"compiled-schema(random#{k})") for k in range(2)] + [_pass(chk.seed * 100 + k, 8000, f"schema(random#{k})") for k in range(6)])
     return vcheck.generic_run(chk, MODULES, AUDIT, passes,
         [PID + ": Model/{Schema,Hash}.lean model schema() of every class, SchemaPrintingContext, tryMergeAllOfObjectSchemas, removeNullUnionBranch, synthetic variant names (32-bit hash) by hand",
